@@ -19,7 +19,7 @@ from fractions import Fraction
 
 import torch
 
-from .aggsym_common import (EPS, F64, NORM_EPS, PE_NORM, ROSTER, build, call, cond_of, config_col, config_exact, ld,
+from .aggsym_common import (EPS, F64, NORM_EPS, PE_NORM, ROSTER, build, build_gd, call, cond_of, config_col, config_exact, gd_draw_gap, ld,
                             maxdiff, mgda_gap, norm_eps_side, present, presented, rationalise, ref_of, split_padded)
 from .core import Ctx, MachineryError
 from .tlc import run_tlc
@@ -269,6 +269,18 @@ def make_recipe(rng: random.Random, pid: str, ep: int) -> dict:
         J0 = [rng.choice(pool)[:] for _ in range(m)]
         if rng.random() < 0.1:
             J0[rng.randrange(m)] = [0] * n
+    u0 = rng.random()
+    if pid == "C09" and u0 < 0.06:
+        J0 = [[0] * n for _ in range(m)]                       # the zero matrix: ConFIG's direction is exactly null in floats
+    elif pid == "C09" and u0 < 0.14:
+        # axis-aligned rows, exactly opposed in pairs (a zero row when m is odd): the exact direction is null for every c
+        ax = rng.randrange(n)
+        J0 = [[0] * n for _ in range(m)]
+        for i in range(m - m % 2):
+            J0[i][ax if i < 2 else rng.randrange(n)] = rng.randint(1, 3)
+        for i in range(1, m - m % 2, 2):
+            J0[i] = [-rng.randint(1, 3) if v else 0 for v in J0[i - 1]]
+        rng.shuffle(J0)
     P0 = [rng.randint(0, 4) for _ in range(m)]
     if not any(P0):
         P0[0] = 1
@@ -320,8 +332,8 @@ def _exact_outputs(M: torch.Tensor, P, W, m: int, e: int, seed: int, sp: dict | 
     of entries there that are not exactly zero."""
     nz = [0]
 
-    def run(agg):
-        x = call(agg, M, seed)
+    def run(agg, sd=seed):
+        x = call(agg, M, sd)
         if sp is not None and presented(sp) and not isinstance(x, str):
             xm, _ = split_padded(x, sp)
             nz[0] += int((x != 0).sum()) - int((xm != 0).sum())
@@ -340,12 +352,32 @@ def _exact_outputs(M: torch.Tensor, P, W, m: int, e: int, seed: int, sp: dict | 
     o["tm"] = [{"b": b, "val": run(build("TrimmedMean", extra=b))} for b in range((m - 1) // 2 + 1)]
     cfgs = sorted({(f, k) for f in range(0, m - 2) for k in (1, 2, m - 1) if 1 <= k <= m})
     o["krum"] = [{"f": f, "k": k, "val": run(build("Krum", extra=(f, k)))} for f, k in cfgs]
+    # GradDrop with the 0/1-valued purity functions of the model (deterministic), without and with the leak P / 4
+    # (a seed whose draw is EXACTLY 0 on some column - where "negative entries kept" needs 0 < U - is replaced by the next)
+    sd = seed
+    while gd_draw_gap("ge", M, sd) == 0.0:
+        sd += 1
+    o["gd"] = [{"f": f, "leak": lk, "val": run(build_gd(f, P if lk else None), sd)}
+               for f, lk in (("ge", False), ("ge", True), ("gt", False), ("gt", True))]
     o["padnz"] = nz[0]
     return o
 
 
 REASON = {"config_direction_exactly_zero": "cfgzero", "rank_ambiguous": "rank", "mgda_argmin_tie": "mgda_tie", "imtlg_guard_degenerate": "imtlg",
           "norm_eps_threshold_ambiguous": "threshold"}
+
+
+def _config_defined(name: str, P0: list, Ms: list, seed: int, zero_m: bool) -> bool:
+    """C09: c -> ConFIG(diag(c) J) must be defined on every finite matrix - called on the three matrices in float64 and
+    float32 (preference vector in the dtype of the matrix); on the zero matrix every value is the zero vector of the dtype."""
+    import torchjd.aggregation as A
+    for dt in (torch.float64, torch.float32):
+        ag = A.ConFIG(pref_vector=torch.tensor(P0, dtype=dt)) if name == "ConFIGP" else A.ConFIG()
+        for M in Ms:
+            x = call(ag, M.to(dt), seed)
+            if isinstance(x, str) or (zero_m and (x.dtype != dt or bool((x != 0).any()))):
+                return False
+    return True
 
 
 def execute(recipe: dict) -> dict:
@@ -364,7 +396,7 @@ def execute(recipe: dict) -> dict:
     M0, M1 = ld(J0, e), present(ld(inst.J, e, inst.den), sp)
     ep = {"ep": recipe["ep"], "kind": kind, "m": m, "n": inst.n0, "J0": J0, "P0": P0, "W0": W0, "gens": recipe["gens"],
           "J": inst.J, "den": inst.den, "P": inst.P, "W": inst.W, "c1": inst.c1, "c2": inst.c2, "a": inst.a, "b": inst.b,
-          "cls": cls, "prefDeg": pref_deg, "e": e, "pad": inst.pad, "padpos": inst.padpos, "pres": recipe.get("pres", "fresh"),
+          "cls": cls, "prefDeg": pref_deg, "zeroM": not any(any(r_) for r_ in J0), "e": e, "pad": inst.pad, "padpos": inst.padpos, "pres": recipe.get("pres", "fresh"),
           "out0": _exact_outputs(M0, P0, W0, m, e, seed), "out1": _exact_outputs(M1, inst.P, inst.W, m, e, seed, sp)}
     ep["padnz"] = ep["out1"].pop("padnz")
     ep["out0"].pop("padnz")
@@ -394,7 +426,9 @@ def execute(recipe: dict) -> dict:
         # ConFIG on independent columns with one row norm (exact in the model): compared although the rows are dependent
         colreg = name.startswith("ConFIG") and cls["colFull"] and cls["equalNorm"] and inst.n == inst.n0 and not presented(sp)
         ent = {"agg": name, "needsRank": r["needs_rank"], "tie": tie, "compared": False, "ok": True, "reason": "",
-               "col": bool(colreg), "pref": name == "ConFIGP"}
+               "col": bool(colreg), "pref": name == "ConFIGP",
+               # ConFIG under row scalings: defined (no exception) in float64 and float32 whatever the classification says
+               "defined": _config_defined(name, P0, Ms, seed, ep["zeroM"]) if kind == "scale" and name.startswith("ConFIG") else True}
         why = None
         cfgd = py_config(inst.J, inst.P if name == "ConFIGP" else [1] * m) if colreg and inst.den == 1 else None
         if colreg and inst.den != 1:
@@ -534,7 +568,7 @@ def run_cs(ctx: Ctx, pid: str, n_episodes: int) -> dict:
     episodes = pmap(_exec, recipes, chunksize=4)
     ctx.count("trace_episodes_config_compared_on_dependent_rows",
               sum(1 for e in episodes if not e["cls"]["rankUnamb"] and any(f["col"] and f["compared"] for f in e["flt"])))
-    ctx.evaluations += sum(2 * (4 + len(e["out0"]["tm"]) + len(e["out0"]["krum"])) + 2 * len(e["flt"]) for e in episodes)
+    ctx.evaluations += sum(2 * (4 + len(e["out0"]["tm"]) + len(e["out0"]["krum"]) + len(e["out0"]["gd"])) + 2 * len(e["flt"]) for e in episodes)
     for e in episodes:
         if e["gens"] and not e["cls"]["conflictFree"]:
             ctx.nontrivial(("trace", str(e["J0"]), str(e["gens"])))
